@@ -299,3 +299,46 @@ package lower
 //@   mode bv
 //@   tags C12
 //@   nomaprange
+
+// ---- module-scope vector constant arithmetic, component by component (C06) ---------------------
+//
+// Components are carried as (kind, bits): floats as f32 bits, integers as the
+// 64-bit two's complement value. The folded component must be the WGSL operator
+// applied to the component values: integers promoted to float keep their sign,
+// signed division is signed.
+//
+//@ pred svf(v) := float64(f32frombits(uint32(v.Bits)))
+//@ func (*Lowerer).evalScalarArithmetic
+//@   mode bv
+//@   tags C06
+//@   ensures [float-add] op == parser.TokenPlus && left.Kind == ir.ScalarFloat && right.Kind == ir.ScalarFloat ==> result <= 0xffffffff && same(f32frombits(uint32(result)), float32(svf(left) + svf(right)))
+//@   ensures [float-mul] op == parser.TokenStar && left.Kind == ir.ScalarFloat && right.Kind == ir.ScalarFloat ==> result <= 0xffffffff && same(f32frombits(uint32(result)), float32(svf(left) * svf(right)))
+//@   ensures [promote-right-signed] op == parser.TokenPlus && left.Kind == ir.ScalarFloat && right.Kind == ir.ScalarSint ==> same(f32frombits(uint32(result)), float32(svf(left) + float64(float32(int64(right.Bits)))))
+//@   ensures [promote-left-signed] op == parser.TokenPlus && right.Kind == ir.ScalarFloat && left.Kind == ir.ScalarSint ==> same(f32frombits(uint32(result)), float32(float64(float32(int64(left.Bits))) + svf(right)))
+//@   ensures [int-add] op == parser.TokenPlus && left.Kind == ir.ScalarSint && right.Kind == ir.ScalarSint ==> result == left.Bits + right.Bits
+//@   ensures [int-mul] op == parser.TokenStar && left.Kind == ir.ScalarSint && right.Kind == ir.ScalarSint ==> result == left.Bits * right.Bits
+//@   ensures [sint-div] op == parser.TokenSlash && left.Kind == ir.ScalarSint && right.Kind == ir.ScalarSint && right.Bits != 0 && !(int64(left.Bits) == -9223372036854775808 && int64(right.Bits) == -1) ==> int64(result) == int64(left.Bits) / int64(right.Bits)
+//@   pure
+//@   nopanic
+//
+// ---- folded builtins use the WGSL rounding functions (C06) -----------------------------------------
+//
+// round() is round-half-to-even in WGSL; ceil, floor, trunc and sqrt are exact.
+//
+//@ func (*Lowerer).tryFoldScalarMath
+//@   mode bv
+//@   tags C06
+//@   at (*Lowerer).foldFloatUnary assert [round] mathFunc == ir.MathRound ==> isfunc(arg2, "math.RoundToEven")
+//@   at (*Lowerer).foldFloatUnary assert [ceil] mathFunc == ir.MathCeil ==> isfunc(arg2, "math.Ceil")
+//@   at (*Lowerer).foldFloatUnary assert [floor] mathFunc == ir.MathFloor ==> isfunc(arg2, "math.Floor")
+//@   at (*Lowerer).foldFloatUnary assert [trunc] mathFunc == ir.MathTrunc ==> isfunc(arg2, "math.Trunc")
+//@   at (*Lowerer).foldFloatUnary assert [sqrt] mathFunc == ir.MathSqrt ==> isfunc(arg2, "math.Sqrt")
+//
+// cross(a, b) = (a.y*b.z - a.z*b.y, a.z*b.x - a.x*b.z, a.x*b.y - a.y*b.x), component by component.
+//
+//@ func (*Lowerer).tryFoldCross
+//@   mode bv
+//@   tags C06
+//@   at (*Lowerer).interruptEmitter#1 assert [x] aKind == "f64" ==> is(arg1.Kind, ir.Literal) && is(arg1.Kind.(ir.Literal).Value, ir.LiteralF64) && same(float64(arg1.Kind.(ir.Literal).Value.(ir.LiteralF64)), aVals[1]*bVals[2] - aVals[2]*bVals[1])
+//@   at (*Lowerer).interruptEmitter#2 assert [y] aKind == "f64" ==> is(arg1.Kind, ir.Literal) && is(arg1.Kind.(ir.Literal).Value, ir.LiteralF64) && same(float64(arg1.Kind.(ir.Literal).Value.(ir.LiteralF64)), aVals[2]*bVals[0] - aVals[0]*bVals[2])
+//@   at (*Lowerer).interruptEmitter#3 assert [z] aKind == "f64" ==> is(arg1.Kind, ir.Literal) && is(arg1.Kind.(ir.Literal).Value, ir.LiteralF64) && same(float64(arg1.Kind.(ir.Literal).Value.(ir.LiteralF64)), aVals[0]*bVals[1] - aVals[1]*bVals[0])
